@@ -28,6 +28,28 @@ CHECKS = {
              '"value at (i,j,k), nothing else"; the reference text is parsed back and looked up under the same name. Every '
              'segment and datatype is instantiated. Exhaustive over the tables.',
         note='trusted: tables define positions (field number = number in the name); reference encoder; 63 known table defects (D1-D3) keyed by full position map'),
+    'C09': dict(
+        engine=E2, design_ref='DESIGN.md section 7 C09, section 3.2',
+        technique='explicit-state breadth-first search over API histories of real objects (rebuild-by-replay, canonical '
+                  'object-graph hashing), every transition compared with a reference list model',
+        text='From 9 roots (Segment empty / parsed / STRICT / Z / varies-ended, Field, flat Message TOLERANT and STRICT, Group) '
+             'all histories up to depth 3 (thorough 4) over an alphabet of ~64 operations (set by name / lower case / long name / '
+             'element, proxy[i]=, children[i]=, add, add_<child> helper, del, del proxy[i], remove, pop, copy from a donor by '
+             'proxy and by element, donor mutations) are explored after canonical state merging (~15,000 states, ~109,000 '
+             'transitions in quick); after each accepted transition the per-name repetition texts, the children order and the '
+             'ER7 encoding of root and donor must equal those of an insertion-ordered list of (name, text) entries.',
+        note='trusted: the list model (100 lines), reference encoder; 3 child names and 2 values per root; canonical key drops only the proxy memo'),
+    'C10': dict(
+        engine=E2, design_ref='DESIGN.md section 7 C10',
+        technique='explicit-state breadth-first search over attach / re-attach / assign / delete histories on a pool of 12 real '
+                  'objects; invariants evaluated through public observers in every reached state',
+        text='Two pools (TOLERANT, STRICT) of message, group, 3 segments, 4 fields (one of the other level, one of another '
+             'version), 2 components and a subcomponent; 94 operations (add / parent= / children.append / assignment / '
+             'children[0]= over 20 ordered pairs, parent=None, traversal reads and writes, deletions, helpers, value '
+             'assignment), all histories to depth 3 (thorough 4): ~12,000 states, ~125,000 transitions. In every state: each '
+             'listed child reports its lister as parent, no element is listed by two parents or twice, iteration / len / in / [] '
+             '/ named lookup agree, one version and one level per tree.',
+        note='trusted: the invariant evaluator (public observers only); rejected calls are transitions too'),
     'C13': dict(
         engine=E1, design_ref='DESIGN.md section 7 C13',
         technique='exhaustive enumeration of date / time-of-day / offset / fraction grids, single-position substitutions and '
